@@ -1,9 +1,10 @@
 package main
 
 import (
-	"go/types"
 	"fmt"
 	"go/token"
+	"go/types"
+	"strings"
 
 	"golang.org/x/tools/go/ssa"
 )
@@ -15,6 +16,7 @@ func init() {
 			ma.collectPairs()
 			ma.ruleR8(c)
 			ma.ruleR9(c)
+			ma.ruleR7f(c)
 			ruleR9m(c)
 			ma.ruleR1dual(c)
 			ruleR2R3(c)
@@ -430,6 +432,9 @@ func (ma *mergeAnalysis) ruleR9p(c *Ctx) {
 						}
 						if lk, ok := ex.Tuple.(*ssa.Lookup); ok {
 							if _, local := mf.insertions(lk.X); local {
+								if p, ok := mf.partition(lk.X); ok && p == pol {
+									continue // de-duplication within the same part of the split (e.g. an order list next to the set)
+								}
 								bad = fmt.Sprintf("the recording depends on whether the key is (not) already in another part of the split (test at %s): with the entries in another order, or a set and a removal of the same key in one response, the removal or the set is lost", c.pos(cd.If.Pos()))
 								continue
 							}
@@ -445,4 +450,170 @@ func (ma *mergeAnalysis) ruleR9p(c *Ctx) {
 			}
 		}
 	}
+}
+
+// ---------------------------------------------------------------- R7f: set keys and lookup keys agree
+
+// keyDesc names what a string key stands for: "Mount.Destination", "KeyValue.Key", "mapkey", …
+// ("?" when it cannot be told).
+func (mf *mergeFn) keyDesc(v ssa.Value, depth int) string {
+	m := mf.m
+	if depth > 5 || v == nil {
+		return "?"
+	}
+	switch x := v.(type) {
+	case *ssa.Extract:
+		if call, ok := x.Tuple.(*ssa.Call); ok && x.Index == 0 {
+			g := m.callee(call.Common())
+			if g == nil {
+				return "?"
+			}
+			if subj, ok := isMarkedTestCall(m, call); ok {
+				if g.Signature.Recv() != nil {
+					if n := ptrNamed(subj.Type()); n != nil {
+						if kf := markedKeyField(m, g); kf != "" {
+							return n.Obj().Name() + "." + kf
+						}
+					}
+					return "?"
+				}
+				return mf.keyDesc(subj, depth+1)
+			}
+			if g == m.fnOpt(pkgAdapt, "splitEnvVar") {
+				return "KeyValue.Key" // the name part of a NAME=value string
+			}
+			return "?"
+		}
+		if nx, ok := x.Tuple.(*ssa.Next); ok && x.Index == 1 {
+			if rg, ok := nx.Iter.(*ssa.Range); ok {
+				if _, isMap := rg.X.Type().Underlying().(*types.Map); isMap {
+					return "mapkey"
+				}
+			}
+		}
+		return "?"
+	case *ssa.Call:
+		if g := m.callee(x.Common()); g != nil && g == m.fnOpt(pkgAPI, "ClearRemovalMarker") && len(x.Call.Args) == 1 {
+			return mf.keyDesc(x.Call.Args[0], depth+1)
+		}
+		if g := m.callee(x.Common()); g != nil && g == m.fnOpt(pkgAPI, "MarkForRemoval") && len(x.Call.Args) == 1 {
+			return mf.keyDesc(x.Call.Args[0], depth+1)
+		}
+	case *ssa.Phi:
+		d := ""
+		for _, e := range x.Edges {
+			ed := mf.keyDesc(e, depth+1)
+			if d != "" && ed != d {
+				return "?"
+			}
+			d = ed
+		}
+		if d != "" {
+			return d
+		}
+		return "?"
+	}
+	// a key taken from a local list of keys: what was put on that list
+	if coll, _ := rangeOf(v); coll != nil && isDirectElem(v) {
+		if _, isStr := v.Type().Underlying().(*types.Basic); isStr {
+			if ins, local := mf.insertions(coll); local && len(ins) > 0 {
+				d := ""
+				for _, i := range ins {
+					if i.elem == nil {
+						return "?"
+					}
+					ed := mf.keyDesc(i.elem, depth+1)
+					if d != "" && ed != d {
+						return "?"
+					}
+					d = ed
+				}
+				if d != "" {
+					return d
+				}
+			}
+		}
+	}
+	a := m.ap(v)
+	if len(a.Path) >= 1 && a.Root != nil {
+		// the field's owner: the type of the value one step up the path
+		owner := ""
+		switch r := v.(type) {
+		case *ssa.UnOp:
+			if fa, ok := r.X.(*ssa.FieldAddr); ok {
+				if n := ptrNamed(fa.X.Type()); n != nil {
+					owner = n.Obj().Name()
+				}
+			}
+		case *ssa.Field:
+			if n, ok := types.Unalias(r.X.Type()).(*types.Named); ok {
+				owner = n.Obj().Name()
+			}
+		case *ssa.Call:
+			// protobuf getter folded into the path: receiver type
+			if len(r.Call.Args) > 0 {
+				if n := ptrNamed(r.Call.Args[0].Type()); n != nil {
+					owner = n.Obj().Name()
+				}
+			}
+		}
+		if owner != "" {
+			return owner + "." + a.Path[len(a.Path)-1]
+		}
+	}
+	return "?"
+}
+
+// ruleR7f: the local sets that steer the filters (removed / modified keys) are looked up with the
+// same kind of key they were filled with.
+func (ma *mergeAnalysis) ruleR7f(c *Ctx) {
+	c.rule("R7f", "filter keys agree: every lookup in a local key set (the removed / re-set keys collected from the plugin's list) uses the same key — the same field of the same element type, the name part of an env string counting as KeyValue.Key — as the keys the set was filled with", 8)
+	for _, mf := range ma.fns {
+		ord := 0
+		for _, b := range mf.fn.Blocks {
+			for _, in := range b.Instrs {
+				lk, ok := in.(*ssa.Lookup)
+				if !ok {
+					continue
+				}
+				if _, isMap := lk.X.Type().Underlying().(*types.Map); !isMap {
+					continue
+				}
+				ins, local := mf.insertions(lk.X)
+				if !local || len(ins) == 0 {
+					continue
+				}
+				fill := map[string]bool{}
+				for _, i := range ins {
+					if i.key != nil {
+						fill[mf.keyDesc(i.key, 0)] = true
+					}
+				}
+				if len(fill) == 0 {
+					continue
+				}
+				ord++
+				got := mf.keyDesc(lk.Index, 0)
+				key := fmt.Sprintf("%s/lookup#%d", mf.fn.Name(), ord)
+				okK := fill[got] && got != "?" && len(fill) == 1
+				c.ok("R7f", key, lk.Pos(), okK, fmt.Sprintf("the lookup in %s uses the key the set was filled with (%s)", mf.fn.Name(), strings.Join(sortedKeys(fill), ", ")),
+					fmt.Sprintf("the set is filled with keys of kind [%s] but looked up with %s: entries the plugin removed or replaced are not found, so a removed item stays in (or a replaced item is duplicated in) what the runtime and later plugins get", strings.Join(sortedKeys(fill), ", "), got))
+			}
+		}
+	}
+}
+
+// isDirectElem: v is itself an element of a collection (range value, xs[i], m[k]), not a field of one.
+func isDirectElem(v ssa.Value) bool {
+	switch x := v.(type) {
+	case *ssa.Extract:
+		_, ok := x.Tuple.(*ssa.Next)
+		return ok
+	case *ssa.Index, *ssa.Lookup:
+		return true
+	case *ssa.UnOp:
+		_, ok := x.X.(*ssa.IndexAddr)
+		return ok
+	}
+	return false
 }
